@@ -2,8 +2,8 @@
   Proofs/Mvp61.lean — facts about the cycle-accurate model of MVP-6.1 (`Model.Mvp61`).
 
   * `run_executed_le`: a run of the machine with `eu` execute units calls `Run` of at most `eu` instructions per tick,
-    and (unless the run left through the `return 0, nil` of the flush loop, which reports ZERO cycles) the returned cycle
-    count bounds the number of executed instructions: `executed ≤ eu · cycles` — the lower bound of property C12.
+    and the cycle counter bounds the number of executed instructions: `executed ≤ eu · cycles` — the lower bound of
+    property C12.
     Unlike MVP-6.0, `ticks ≤ cycles` does NOT hold here: the ticks of the write units' drain loops inside the flush
     path do not advance the cycle counter; but no instruction runs in such a tick.
   * forwarding (`euRun_sends_result`, `euPrepare_receives`): the producer sends exactly the `RegisterValue` of the
@@ -389,15 +389,14 @@ theorem goFlushW_tail (seq pc : Word) (fc : Int) (e : Bool) : ∀ (n i : Nat) (s
       · exact ih _ s
 
 /-- one tick: at most one instruction per execute unit runs; the cycle counter advances — or no instruction ran and it
-did not go back (the write units' drain loops) — or the run is over with the counter reset to 0 (`return 0, nil`) -/
-structure Tick (s s' : State) (ev : Event) : Prop where
+did not go back (the write units' drain loops) -/
+structure Tick (s s' : State) : Prop where
   len : s'.eus.length = s.eus.length
   lo : s.executed ≤ s'.executed
   hi : s'.executed ≤ s.executed + s.eus.length
-  cyc : s.cycles + 1 ≤ s'.cycles ∨ (s'.executed = s.executed ∧ s.cycles ≤ s'.cycles) ∨
-        (s'.cycles = 0 ∧ ev = .done .offEnd)
+  cyc : s.cycles + 1 ≤ s'.cycles ∨ (s'.executed = s.executed ∧ s.cycles ≤ s'.cycles)
 
-theorem cycleM_tick {app : App} {s s' : State} {ev : Event} (h : cycleM app s = .ok (s', ev)) : Tick s s' ev := by
+theorem cycleM_tick {app : App} {s s' : State} {ev : Event} (h : cycleM app s = .ok (s', ev)) : Tick s s' := by
   unfold cycleM at h
   split at h
   · -- normal
@@ -491,8 +490,8 @@ theorem cycleM_tick {app : App} {s s' : State} {ev : Event} (h : cycleM app s = 
       simp only [Loop] at h f1
       split at h
       · simp only [Except.ok.injEq, Prod.mk.injEq] at h
-        obtain ⟨rfl, rfl⟩ := h
-        exact ⟨f1.1, f1.2.1, f1.2.2.1, Or.inr (Or.inr ⟨rfl, rfl⟩)⟩
+        obtain ⟨rfl, _⟩ := h
+        exact ⟨f1.1, f1.2.1, f1.2.2.1, Or.inl (by have := f1.2.2.2; omega)⟩
       · simp only [Except.ok.injEq] at h
         have hs := congrArg Prod.fst h
         simp only at hs
@@ -515,11 +514,11 @@ theorem cycleM_tick {app : App} {s s' : State} {ev : Event} (h : cycleM app s = 
       have t := goFlushW_tail seq pc fc e (s1.wus.length - i) i s1
       have e1 : (goFlushW s1 seq pc fc e (s1.wus.length - i) i).1.executed = s.executed := by rw [t.exe, f1.exe]
       exact ⟨t.len.trans f1.len, by rw [e1]; exact Nat.le_refl _, by rw [e1]; exact Nat.le_add_right _ _,
-             Or.inr (Or.inl ⟨e1, by have := t.cyc; have := f1.cyc; simp only at this; omega⟩)⟩
+             Or.inr ⟨e1, by have := t.cyc; have := f1.cyc; simp only at this; omega⟩⟩
 
 /-- a tick of `cycle`: a tick of `cycleM`, or a Go panic (the state is kept, the run is over) -/
 theorem cycle_tick (app : App) (s : State) :
-    Tick s (cycle app s).1 (cycle app s).2 ∨ ((cycle app s).1 = s ∧ ∃ w, (cycle app s).2 = .done (.panic w)) := by
+    Tick s (cycle app s).1 ∨ ((cycle app s).1 = s ∧ ∃ w, (cycle app s).2 = .done (.panic w)) := by
   unfold cycle
   split
   · rename_i r hr
@@ -528,13 +527,12 @@ theorem cycle_tick (app : App) (s : State) :
   · exact Or.inr ⟨rfl, _, rfl⟩
   · exact Or.inr ⟨rfl, _, rfl⟩
 
-/-- the invariant `executed ≤ units · cycles` survives a tick — unless the tick is the `return 0, nil` exit -/
-theorem Tick.inv {s s' : State} {ev : Event} (t : Tick s s' ev)
+/-- the invariant `executed ≤ units · cycles` survives a tick -/
+theorem Tick.inv {s s' : State} (t : Tick s s')
     (h : (s.executed : Int) ≤ s.eus.length * s.cycles) :
-    (s'.executed : Int) ≤ s'.eus.length * s'.cycles ∨ (s'.cycles = 0 ∧ ev = .done .offEnd) := by
-  rcases t.cyc with a | ⟨b1, b2⟩ | c
-  · left
-    rw [t.len]
+    (s'.executed : Int) ≤ s'.eus.length * s'.cycles := by
+  rcases t.cyc with a | ⟨b1, b2⟩
+  · rw [t.len]
     have h1 : (s.eus.length : Int) * (s.cycles + 1) ≤ s.eus.length * s'.cycles :=
       Int.mul_le_mul_of_nonneg_left a (Int.natCast_nonneg _)
     have h2 : (s'.executed : Int) ≤ ((s.executed + s.eus.length : Nat) : Int) := Int.ofNat_le.mpr t.hi
@@ -543,21 +541,18 @@ theorem Tick.inv {s s' : State} {ev : Event} (t : Tick s s' ev)
     generalize (s.eus.length : Int) * s.cycles = X at *
     generalize (s.eus.length : Int) * s'.cycles = Y at *
     omega
-  · left
-    rw [t.len, b1]
+  · rw [t.len, b1]
     exact Int.le_trans h (Int.mul_le_mul_of_nonneg_left b2 (Int.natCast_nonneg _))
-  · exact Or.inr c
 
 theorem runFrom_bound (app : App) : ∀ (fuel : Nat) (s : State) (n : Nat),
     (runFrom app fuel s n).final.eus.length = s.eus.length ∧
     n ≤ (runFrom app fuel s n).ticks ∧
     (runFrom app fuel s n).final.executed + s.eus.length * n ≤ s.executed + s.eus.length * (runFrom app fuel s n).ticks ∧
     ((s.executed : Int) ≤ s.eus.length * s.cycles →
-      (runFrom app fuel s n).final.cycles = 0 ∨
       ((runFrom app fuel s n).final.executed : Int) ≤ s.eus.length * (runFrom app fuel s n).final.cycles) := by
   intro fuel
   induction fuel with
-  | zero => intro s n; exact ⟨rfl, Nat.le_refl _, Nat.le_refl _, fun h => Or.inr h⟩
+  | zero => intro s n; exact ⟨rfl, Nat.le_refl _, Nat.le_refl _, fun h => h⟩
   | succ fuel ih =>
     intro s n
     simp only [runFrom]
@@ -575,9 +570,7 @@ theorem runFrom_bound (app : App) : ∀ (fuel : Nat) (s : State) (n : Nat),
           simp only [Nat.mul_add, Nat.mul_one] at h3
           omega
         · intro hi
-          rcases t.inv hi with a | ⟨_, c⟩
-          · rw [← t.len]; exact h4 a
-          · cases c
+          rw [← t.len]; exact h4 (t.inv hi)
       · simp only at hw; cases hw
     · rename_i s' hh hs
       rw [hs] at hc
@@ -588,22 +581,20 @@ theorem runFrom_bound (app : App) : ∀ (fuel : Nat) (s : State) (n : Nat),
           simp only [Nat.mul_add, Nat.mul_one]
           omega
         · intro hi
-          rcases t.inv hi with a | ⟨c, _⟩
-          · rw [← t.len]; exact Or.inr a
-          · exact Or.inl c
+          rw [← t.len]; exact t.inv hi
       · simp only at he hw
         cases hw
         subst he
-        refine ⟨rfl, Nat.le_succ n, ?_, fun hi => Or.inr hi⟩
+        refine ⟨rfl, Nat.le_succ n, ?_, fun hi => hi⟩
         simp only [Nat.mul_add, Nat.mul_one]; omega
 
 /-- **lower bound (C12) for MVP-6.1.**  In a run of the model with `eu` execute units, at most `eu` instructions are
-executed (their `Run` called) per tick; and the returned cycle count is 0 (the `return 0, nil` of the flush loop) or at
-least `executed / eu`.  This holds for every run: halted, out of fuel, or ended by a Go panic. -/
+executed (their `Run` called) per tick, and the cycle counter is at least `executed / eu`.  This holds for every run:
+halted, out of fuel, or ended by a Go panic.  (On a run that ends with an instruction error Go returns the count 0 next to
+the error; the model's counter is the one `Run` had reached.) -/
 theorem run_executed_le (app : App) (ctx : Model.Context) (eu wu fuel : Nat) :
     (run app ctx eu wu fuel).final.executed ≤ eu * (run app ctx eu wu fuel).ticks ∧
-    ((run app ctx eu wu fuel).final.cycles = 0 ∨
-      ((run app ctx eu wu fuel).final.executed : Int) ≤ eu * (run app ctx eu wu fuel).final.cycles) := by
+    ((run app ctx eu wu fuel).final.executed : Int) ≤ eu * (run app ctx eu wu fuel).final.cycles := by
   unfold run
   split
   · rename_i s hs
@@ -621,7 +612,7 @@ theorem run_executed_le (app : App) (ctx : Model.Context) (eu wu fuel : Nat) :
         simp only [List.length_replicate, Nat.mul_zero, Nat.add_zero, Nat.zero_add, Int.natCast_zero, Int.mul_zero,
           Int.le_refl, true_implies] at h
         exact ⟨h.2.2.1, h.2.2.2⟩
-  · exact ⟨Nat.zero_le _, Or.inl rfl⟩
+  · exact ⟨Nat.zero_le _, by simp only [Int.natCast_zero, Int.mul_zero, Int.le_refl]⟩
 
 /-! ## forwarding: the consumer runs with exactly the producer's result -/
 
